@@ -310,8 +310,16 @@ def rule_let_chain(text, dropped):
 def rule_derive_structural(text, dropped):
     # used on enum items: attributes were already stripped; prepend normalized derive
     dropped.append(('derive-structural', 'derive list normalised to Clone, Copy, PartialEq, Eq, Structural; other attributes dropped'))
+    dm = re.search(r'#\[default\]\s*(?:///[^\n]*\n\s*)*(\w+)', text)
+    nm = re.search(r'\benum\s+(\w+)', text)
     text = _strip_inner_attrs(text, dropped)
-    return '#[derive(Clone, Copy, PartialEq, Eq, Structural)] ' + text
+    tail = ''
+    if dm and nm:
+        # `#[derive(Default)]` + `#[default] Variant` spelled out, so the default value is known to the verifier
+        tail = (f' impl Default for {nm.group(1)} {{ fn default() -> (r: Self) ensures r == {nm.group(1)}::{dm.group(1)} '
+                f'{{ {nm.group(1)}::{dm.group(1)} }} }}')
+        dropped.append(('derive-structural', f'#[default] {dm.group(1)} => explicit impl Default'))
+    return '#[derive(Clone, Copy, PartialEq, Eq, Structural)] ' + text + tail
 
 
 def _strip_inner_attrs(text, dropped):
@@ -458,12 +466,15 @@ def apply_rules(text, rules, dropped):
             m = re.match(r'sub:@([^@]*)@([^@]*)@$', r)
             if not m:
                 raise SliceError(f'bad sub rule {r}')
-            rx, rep = m.group(1), m.group(2)
-            new, n = re.subn(rx, lambda _m: rep, text)
+            rx, rep = m.group(1), m.group(2).replace('\\n', '\n')
+            def _pad(_m, rep=rep):
+                d = _m.group(0).count('\n') - rep.count('\n')
+                if d < 0:
+                    raise SliceError(f'rule {r} would add lines')
+                return rep + '\n' * d
+            new, n = re.subn(rx, _pad, text)
             if n == 0:
                 raise SliceError(f'rule {r} did not apply')
-            if new.count('\n') != text.count('\n'):
-                raise SliceError(f'rule {r} changes line count')
             dropped.append(('sub', f'{n}x /{rx}/ => {rep!r}'))
             text = new
             continue
@@ -530,11 +541,11 @@ class Out:
 
 
 def _region_bounds(body, start_rx, end_rx):
-    ms = re.search(start_rx, body)
+    ms = re.search(start_rx, body, re.M)
     if not ms:
         raise SliceError(f'region start anchor /{start_rx}/ not found')
     s = body.rfind('\n', 0, ms.start()) + 1
-    me = re.search(end_rx, body[ms.start():])
+    me = re.search(end_rx, body[ms.start():], re.M)
     if not me:
         raise SliceError(f'region end anchor /{end_rx}/ not found')
     e0 = ms.start() + me.end()
